@@ -23,7 +23,7 @@ DT = 64
 
 def gen(seed, rev=None, layout=None, scheme=None, nsteps=None, numrec=None, period=None, continuous=None,
         kills=True, subgrid=None, scalars=True, vertadv=None, land=True, files=None, age=True, speed=None,
-        late_release=True, pvars=True):
+        late_release=True, pvars=True, first_release=0):
     r = np.random.RandomState(seed)
     imax, jmax = [(12, 10), (9, 13), (11, 11), (10, 12)][seed % 4]     # wide, tall, square
     N = int(r.choice([2, 4]))
@@ -70,7 +70,7 @@ def gen(seed, rev=None, layout=None, scheme=None, nsteps=None, numrec=None, peri
     eff = sub or [1, imax - 1, 1, jmax - 1]
     rows = []
     freq = int(r.choice([1, 2])) if continuous else 1
-    rtimes = [0] + ([int(x) * freq for x in sorted(set(r.randint(1, max(2, nsteps // freq + 1), size=r.randint(0, 3)).tolist()))] if late_release else [])
+    rtimes = [first_release * freq] + ([int(x) * freq for x in sorted(set(r.randint(1, max(2, nsteps // freq + 1), size=r.randint(0, 3)).tolist()))] if late_release else [])
     for t in rtimes:
         for _ in range(int(r.choice([1, 2, 3]))):
             for _try in range(50):
@@ -106,7 +106,8 @@ def files_of(sc):
 
 
 def sim2time(sc, step):
-    return sc["start"] + (-1 if sc["rev"] else 1) * step * DT
+    t = sc["start"] + (-1 if sc["rev"] else 1) * step * DT
+    return int(t) if t == int(t) else t
 
 
 def extra_forcing(sc):
